@@ -1,4 +1,5 @@
 import copy
+import os
 import warnings
 import patsy
 import numpy as np
@@ -442,6 +443,13 @@ class TMLE:
         Qstar1 = logistic.cdf(np.log(probability_to_odds(self.QA1W)) + self._epsilon[0] / self.g1W_total)
         Qstar0 = logistic.cdf(np.log(probability_to_odds(self.QA0W)) - self._epsilon[1] / self.g0W_total)
         Qstar = log.predict(np.column_stack((H1W, H0W)), offset=np.log(probability_to_odds(self.QAW)))
+        if os.environ.get('ZEPID_VERIF') == '1':  # verification probe (add-only, off by default)
+            self._verif_probe_ = {'Qstar': np.array(Qstar, dtype=float), 'Qstar1': np.array(Qstar1, dtype=float),
+                                  'Qstar0': np.array(Qstar0, dtype=float), 'H1W': np.array(H1W, dtype=float),
+                                  'H0W': np.array(H0W, dtype=float), 'y': np.array(y, dtype=float),
+                                  'epsilon': np.array(self._epsilon, dtype=float),
+                                  'g1W_total': np.array(self.g1W_total, dtype=float),
+                                  'g0W_total': np.array(self.g0W_total, dtype=float)}
 
         # Step 6) Calculating Psi
         if self.alpha == 0.05:  # Without this, won't match R exactly. R relies on 1.96, while I use SciPy
